@@ -3,6 +3,8 @@
 import json, os, glob
 V = os.path.dirname(os.path.dirname(os.path.abspath(__file__)))
 out = []
+def esc(x):
+    return str(x).replace("|", "\\|")
 desc = json.load(open(os.path.join(V, "seeded", "descriptions.json")))
 out.append("### Changes written by independent sub-agents (`seeded/<id>/`: patch.diff, demo/, meta.json)\n")
 out.append("Each was confirmed in a scratch worktree: the demonstration passes on the clean tree, the patch applies and compiles, the 544 baseline tests still pass, the demonstration fails with the patch. `caught by` lists the quick checks that exit 1 on the patched tree.\n")
@@ -16,7 +18,7 @@ for d in sorted(glob.glob(os.path.join(V, "seeded", "C*-*"))):
     caught = [k for k, v in m.get("checks", {}).items() if v.get("caught")]
     missed = [k for k, v in m.get("checks", {}).items() if not v.get("caught")]
     dd = desc.get(sid, {})
-    out.append(f"| {sid} | {m['property']} | {dd.get('change','')} | {dd.get('needs','')} | {'yes' if ok else 'NO'} | {', '.join(caught) or '-'} | {', '.join(missed) or ''} |")
+    out.append(f"| {sid} | {m['property']} | {esc(dd.get('change',''))} | {esc(dd.get('needs',''))} | {'yes' if ok else 'NO'} | {', '.join(caught) or '-'} | {', '.join(missed) or ''} |")
 out.append("")
 res = json.load(open(os.path.join(V, "sensitivity", "results.json")))
 out.append("### Hand-made changes (`sensitivity/mutants/*.sh`, run by `sensitivity/run.py`)\n")
@@ -27,6 +29,6 @@ for name in sorted(res):
     e = res[name]
     caught = [k for k, v in e.get("checks", {}).items() if v.get("caught")]
     missed = [k for k, v in e.get("checks", {}).items() if not v.get("caught")]
-    out.append(f"| {name} | {e.get('change','')} | {'yes' if e.get('compiles') else 'no'} | {', '.join(caught) or '-'} | {', '.join(missed)} | {remarks.get(name,'')} |")
+    out.append(f"| {name} | {esc(e.get('change',''))} | {'yes' if e.get('compiles') else 'no'} | {', '.join(caught) or '-'} | {', '.join(missed)} | {esc(remarks.get(name,''))} |")
 open(os.path.join(V, "sensitivity", "TABLE.md"), "w").write("\n".join(out) + "\n")
 print("written", len(out), "lines")
